@@ -28,6 +28,8 @@ pub enum Kind {
     Num { depth: u32, lits: usize },
     /// comparisons of numeric expressions (depth d_num), combined d_bool levels
     Bools { d_num: u32, d_bool: u32, lits: usize },
+    /// operand snapshots: `x op { x = b; 1 }` must use the OLD x (all operators)
+    Snapshot,
     /// depth-2 numeric expressions with one leaf operand at the root
     NumOneDeep,
     /// comparisons of a depth-1 numeric expression with a leaf
@@ -74,6 +76,10 @@ pub fn families(tier: Tier) -> Vec<Family> {
             ret: Ty::Bool,
             kind: Kind::Bools { d_num: 0, d_bool: 1, lits: 1 },
         });
+    }
+    for t in num_tys() {
+        v.push(Family { name: format!("snapshot/{}", t.print()), t: t.clone(), ret: t.clone(), kind: Kind::Snapshot });
+        v.push(Family { name: format!("snapshot-cmp/{}", t.print()), t: t.clone(), ret: Ty::Bool, kind: Kind::Snapshot });
     }
     v.push(Family { name: "templates".into(), t: Ty::Int(IntTy::I32), ret: Ty::Int(IntTy::I32), kind: Kind::Templates });
     for t in num_tys() {
@@ -124,6 +130,41 @@ pub fn programs(f: &Family, cfg: &Cfg) -> Vec<Program> {
         Kind::Bools { d_num, d_bool, lits } => {
             let lv = leaves(&f.t, &literals(&f.t, *lits));
             bool_exprs(&f.t, *d_num, *d_bool, &lv).into_iter().map(single).collect()
+        }
+        Kind::Snapshot => {
+            let one = literals(&f.t, 1)[0].clone();
+            let ops: Vec<BinOp> = if f.ret == Ty::Bool {
+                CMP.to_vec()
+            } else if f.t.is_float() {
+                vec![BinOp::Add, BinOp::Sub, BinOp::Mul, BinOp::Div]
+            } else {
+                ARITH.to_vec()
+            };
+            let mut out = vec![];
+            for op in ops {
+                // the right operand reassigns the variable the left operand reads
+                let rhs = |v: &str| E::Block(blk(vec![S::Expr(E::Assign(vec![v.into()], Box::new(var("b"))))], Some(one.clone())));
+                // (1) local variable
+                let body = blk(vec![S::Let("x".into(), Some(f.t.clone()), var("a"))], Some(bin(op, var("x"), rhs("x"))));
+                out.push(Program { records: vec![], enums: vec![], funcs: vec![Func { name: "f".into(), params: vec![("a".into(), f.t.clone()), ("b".into(), f.t.clone())], ret: f.ret.clone(), body, filtermap: false }] });
+                // (2) parameter
+                out.push(single(bin(op, var("a"), rhs("a"))));
+                // (3) both operands are blocks, the left one reads, the right one writes
+                let lhs = E::Block(blk(vec![], Some(var("a"))));
+                out.push(single(bin(op, lhs, rhs("a"))));
+                // (4) compound assignment
+                if f.ret != Ty::Bool {
+                    let body = blk(
+                        vec![
+                            S::Let("x".into(), Some(f.t.clone()), var("a")),
+                            S::Expr(E::Compound(vec!["x".into()], op, Box::new(rhs("x")))),
+                        ],
+                        Some(var("x")),
+                    );
+                    out.push(Program { records: vec![], enums: vec![], funcs: vec![Func { name: "f".into(), params: vec![("a".into(), f.t.clone()), ("b".into(), f.t.clone())], ret: f.ret.clone(), body, filtermap: false }] });
+                }
+            }
+            out
         }
         Kind::NumOneDeep => {
             let lv = leaves(&f.t, &literals(&f.t, 1));
